@@ -3,7 +3,10 @@
 Bounded-exhaustive enumeration (E2) of the objects pyDCOP transmits, pushed through the real transformation of
 HttpCommunicationLayer.send_msg / MPCHttpHandler.do_POST
 
-    simple_repr(msg) -> requests' JSON body encoder -> bytes -> json.loads(str(bytes, "utf-8")) -> from_repr(..)
+    send_msg: simple_repr(msg) -> requests.post(.., json=msg_repr): requests' body encoder -> bytes
+    do_POST : json.loads(str(bytes, "utf-8")) -> from_repr(..)
+
+(both methods are executed for real; only the socket between them is replaced, see `transport`)
 
 (or through pickle for AgentDef, as multiprocessing does for run_local_process_dcop) and compared DEEPLY with the
 original: same class, same public fields recursively (instance attributes and properties not starting with "_"),
@@ -44,33 +47,85 @@ class WireFailure(Exception):
         self.exc = exc
 
 
-def wire(obj, notes):
-    """The transformation of send_msg + do_POST, without the socket.  notes receives 'nonfinite' when requests'
-    encoder (json.dumps(.., allow_nan=False) since requests 2.26) refuses the body; the round trip then goes on with
-    the plain json.dumps body so that the rest of the object is still compared."""
-    import requests
-    from pydcop.utils.simple_repr import from_repr, simple_repr
+_TRANSPORT = {}
 
+
+def transport():
+    """The real HttpCommunicationLayer.send_msg and the real MPCHttpHandler.do_POST, joined without a socket:
+    inside communication.py `requests.post` is replaced by requests' own request preparation (everything
+    requests.post does before it opens the connection); the prepared headers and body are what do_POST reads."""
+    if _TRANSPORT:
+        return _TRANSPORT
+    import requests as real
+
+    import pydcop.infrastructure.communication as cm
+
+    class Response:
+        status_code = 200
+
+    class RequestsStandIn:
+        exceptions = real.exceptions
+
+        def post(self, url, timeout=None, **kw):
+            _TRANSPORT["prepared"] = real.Request("POST", url, **kw).prepare()
+            return Response()
+
+    class Directory:
+        def agent_address(self, agent):
+            return ("127.0.0.1", 9000)
+
+    class Inbox:
+        def on_post_message(self, path, sender, dest, comp_msg):
+            _TRANSPORT["received"] = comp_msg
+
+    class Server:
+        comm = Inbox()
+
+    cm.requests = RequestsStandIn()
+    sender = object.__new__(cm.HttpCommunicationLayer)  # no constructor: it would bind a port and start a server thread
+    sender._on_error = None
+    sender.discovery = Directory()
+    handler = object.__new__(cm.MPCHttpHandler)
+    handler.server = Server()
+    handler.path = "/pydcop"
+    handler.send_response = handler.send_header = handler.end_headers = lambda *a, **k: None
+    _TRANSPORT.update(cm=cm, real=real, sender=sender, handler=handler)
+    return _TRANSPORT
+
+
+def wire(obj, notes):
+    """send_msg + do_POST.  notes receives 'nonfinite' when requests' encoder refuses the body send_msg hands it
+    (json.dumps(.., allow_nan=False) since requests 2.26); the round trip then goes on with a plain json.dumps body
+    so that the rest of the object is still compared."""
+    from pydcop.utils.simple_repr import simple_repr
+
+    t = transport()
+    cm, real = t["cm"], t["real"]
     try:
-        msg_repr = simple_repr(obj)  # send_msg: msg_repr = simple_repr(msg.msg)
+        msg_repr = simple_repr(obj)  # first statement of send_msg, repeated here only to name the failing stage
     except Exception as e:
         raise WireFailure("encode", e)
+    t.pop("prepared", None)
     try:
-        # send_msg: requests.post(dest_address, headers=.., json=msg_repr, timeout=0.5)
-        body = requests.Request("POST", URL, json=msg_repr).prepare().body
-    except requests.exceptions.InvalidJSONError as e:
+        t["sender"].send_msg("a1", "a2", cm.ComputationMessage("c1", "c2", obj, 20))
+        prepared = t["prepared"]
+    except real.exceptions.InvalidJSONError as e:
         notes.append(("nonfinite", str(e)))
         try:
-            body = json.dumps(msg_repr).encode("utf-8")
+            prepared = real.Request("POST", URL, headers={"type": "20"}, data=json.dumps(msg_repr)).prepare()
         except Exception as e2:
             raise WireFailure("json", e2)
     except Exception as e:
         raise WireFailure("json", e)
-    if not isinstance(body, bytes):
-        body = body.encode("utf-8")
+    body = prepared.body if isinstance(prepared.body, bytes) else prepared.body.encode("utf-8")
+    handler = t["handler"]
+    handler.headers = prepared.headers
+    handler.rfile = io.BytesIO(body)
+    t.pop("received", None)
     try:
-        content = json.loads(str(body, "utf-8"))  # do_POST
-        return from_repr(content)  # do_POST: ComputationMessage(src_comp, dest_comp, from_repr(content), int(type))
+        with contextlib.redirect_stdout(io.StringIO()):
+            handler.do_POST()
+        return t["received"].msg
     except Exception as e:
         raise WireFailure("decode", e)
 
@@ -1045,7 +1100,7 @@ def run(ctx):
         "Non-trivial = a message with a non-empty field or a cycle stamp, a node with at least one link, an AgentDef with a route, hosting or extra entry."
     )
     ctx.assumptions = [
-        "The socket is not exercised: the body is produced by requests' own request preparation (what requests.post(json=..) sends) and decoded with json.loads(str(body,'utf-8')) + from_repr as in do_POST.",
+        "The socket is not exercised: the real HttpCommunicationLayer.send_msg runs with requests.post replaced by requests' own request preparation (all that requests.post does before connecting); the prepared headers and body are read by the real MPCHttpHandler.do_POST (objects built without their constructors: no port, no thread).",
         "AgentDef process hand-over = pickle.loads(pickle.dumps(.)) with the default protocol (multiprocessing under the spawn/forkserver start methods; comment above AgentDef.__getstate__).",
         "A set whose elements come back as a list (JSON has no sets; replica_hosts is documented as lists) is accepted; tuples must stay tuples, dict keys keep their type.",
         "Public picture = instance attributes and properties whose name does not start with '_' ; python functions are compared by presence only.",
